@@ -425,6 +425,43 @@ theorem sumList_const {α : Type} (l : List α) (g : α → Rat) (c : Rat) (h : 
     rw [h x (List.mem_cons_self ..), ih (fun y hy => h y (List.mem_cons_of_mem _ hy))]
     push_cast; ring
 
+theorem all_of_filter_length {α : Type} (p : α → Bool) :
+    ∀ (l : List α), l.length ≤ (l.filter p).length → ∀ x ∈ l, p x = true := by
+  intro l
+  induction l with
+  | nil => intro _ x hx; cases hx
+  | cons y l ih =>
+    intro h x hx
+    by_cases hy : p y = true
+    · have h' : l.length ≤ (l.filter p).length := by
+        simp only [List.filter_cons, hy, if_true, List.length_cons] at h; omega
+      rcases List.mem_cons.mp hx with rfl | hx
+      · exact hy
+      · exact ih h' x hx
+    · have := List.length_filter_le p l
+      simp only [List.filter_cons, hy, List.length_cons] at h
+      simp at h; omega
+
+theorem sumList_append (l r : List Rat) : GridS.sumList (l ++ r) = GridS.sumList l + GridS.sumList r := by
+  induction l with
+  | nil => simp [GridS.sumList]
+  | cons x l ih => simp only [List.cons_append, GridS.sumList, ih]; ring
+
+theorem sumList_map_lin {α : Type} (l : List α) (g0 g1 : α → Rat) (c0 c1 : Rat) :
+    GridS.sumList (l.map (fun x => c0 * g0 x + c1 * g1 x))
+      = c0 * GridS.sumList (l.map g0) + c1 * GridS.sumList (l.map g1) := by
+  induction l with
+  | nil => simp [GridS.sumList]
+  | cons x l ih => simp only [List.map_cons, GridS.sumList, ih]; ring
+
+theorem sumList_map_congr {α : Type} (l : List α) (g h : α → Rat) (e : ∀ x ∈ l, g x = h x) :
+    GridS.sumList (l.map g) = GridS.sumList (l.map h) := by
+  induction l with
+  | nil => rfl
+  | cons x l ih =>
+    simp only [List.map_cons, GridS.sumList]
+    rw [e x (List.mem_cons_self ..), ih (fun y hy => e y (List.mem_cons_of_mem _ hy))]
+
 namespace GridS
 variable (G : GridS)
 
